@@ -204,9 +204,18 @@ struct Rng
 {
     uint64_t s;
 
+    // the state is a hash of the seed: with s = seed * gamma + c the streams of consecutive seeds were shifted copies of each
+    // other (the parallel driver processes of one check explored nearly the same cases)
     explicit Rng(uint64_t seed)
-        : s(seed * 0x9E3779B97F4A7C15ULL + 0x1234567ULL)
+        : s(mix(seed * 0x9E3779B97F4A7C15ULL + 0x1234567ULL) ^ mix(~seed))
     {
+    }
+
+    static uint64_t mix(uint64_t z)
+    {
+        z = (z ^ (z >> 30U)) * 0xBF58476D1CE4E5B9ULL;
+        z = (z ^ (z >> 27U)) * 0x94D049BB133111EBULL;
+        return z ^ (z >> 31U);
     }
 
     uint64_t next()
